@@ -608,6 +608,9 @@ func c04R5(p *engine.Prog, r *engine.Report, sm *stateModel) {
 	// ---------------- R6: "restore" credits (R1) replay a per-transaction cache: the cache must be per transaction
 	envCacheResetRule(p, r, "C04-R6", "vm/env", "EnvImp")
 	r.Floor("C04-R6", 5, "EnvImp caches written back by Commit")
+	totalCostNoBypassRule(p, r, "C04-R2")
+	importRules(p, r, "C15", map[string]string{"C15-R6": "C04-R8"})
+	gasLimitFeeRateRule(p, r, "C04-R8")
 	// ---------------- R7: buffered balances are read through the buffer
 	c04R7(p, r)
 }
